@@ -48,6 +48,15 @@ class Table:
             out.append(v)
         return tuple(out)
 
+    def pk_get(self, *vals):
+        """row with this primary key (values normalised by column collation) or None"""
+        key = []
+        for c, v in zip(self.uniques[0], vals):
+            if isinstance(v, str) and not self.columns[c].cs:
+                v = ci_key(v)
+            key.append(v)
+        return self.uidx[0].get(tuple(key))
+
     def hash_index(self, cols):
         """non-unique hash index on normalised column values; rebuilt lazily when the table changed"""
         ent = self._hidx.get(cols)
